@@ -5,7 +5,7 @@ import ast
 
 from . import e2_formula as F
 from .core import AnchorError, Unsupported
-from .e1_srcmodel import dotted, walk_no_nested, parent
+from .e1_srcmodel import dotted, walk_no_nested, parent, utext
 from .e2_eval import Evaluator, is_unknown, need
 from .e3_spaces import Arr, Idx, Typer
 
@@ -123,7 +123,7 @@ def r1_roles(ctx):
         if len(first) != 1:
             ctx.error(f"extrema [{arm}]: first-case block", fn)
         else:
-            txt = [ast.unparse(s).replace(" ", "") for s in first[0].body]
+            txt = [utext(s) for s in first[0].body]
             if arm == "one-column":
                 ok = "curext.ext=mm.ext@[[1,1]]" in txt and "curext.maxcase=maxcase" in txt and "curext.mincase=maxcase[:]" in txt
                 ctx.check(ok, "extrema [one-column]: first case fills both columns with the value and gives mincase its own copy of the labels", first[0], txt)
@@ -138,12 +138,12 @@ def r1_roles(ctx):
             ctx.check(ok, f"extrema [{arm}]: the first-case test precedes the compare-and-replace", first[0], nontrivial=False)
     ctx.check(nsel == 4 and nstores >= 20, f"extrema: rule bound to {nsel} selectors and {nstores} role stores", fn, nontrivial=False)
     # label lists are copied, never aliased to the caller's
-    txt = ast.unparse(fn).replace(" ", "")
+    txt = utext(fn)
     ok = "maxcase=maxcase[:]" in txt and "mincase=maxcase[:]" in txt and "mincase=mincase[:]" in txt
     ctx.check(ok, "extrema: label lists are copied (`[:]`) before being stored", fn)
     # _put_time moves mm.ext_x[j, col_rhs] into curext.ext_x[j, col_lhs]
     pt = ctx.src.func(UTIL, "extrema._put_time")
-    ok = "curext.ext_x[j,col_lhs]=mm.ext_x[j,col_rhs]" in ast.unparse(pt).replace(" ", "")
+    ok = "curext.ext_x[j,col_lhs]=mm.ext_x[j,col_rhs]" in utext(pt)
     ctx.check(ok, "_put_time: curext.ext_x[j, lhs] = mm.ext_x[j, rhs]", pt)
     # _store_maxmin / frf_data_recovery
     sm = ctx.src.func(RES, "DR_Results._store_maxmin")
@@ -158,10 +158,10 @@ def r1_roles(ctx):
                 ok = _col_of(st.value, src) == col and ast.unparse(st.targets[0].slice).replace(" ", "") in ("(:,j)", ":,j")
                 ctx.check(ok, f"_store_maxmin: `{t}[:, j]` records column {col} of {src}", st)
     ctx.check(seen == 4, "_store_maxmin: four per-case records", sm, nontrivial=False)
-    ok = "res.cases[j]=case" in ast.unparse(sm).replace(" ", "")
+    ok = "res.cases[j]=case" in utext(sm)
     ctx.check(ok, "_store_maxmin: the case label goes to the same slot j", sm)
     fr = ctx.src.func(RES, "DR_Results.frf_data_recovery")
-    txt = ast.unparse(fr).replace(" ", "")
+    txt = utext(fr)
     ok = "mm=maxmin(abs(resp),SOL.f)" in txt and "mm.ext[:,1]=-mm.ext[:,0]" in txt and "mm.ext_x[:,1]=mm.ext_x[:,0]" in txt
     ctx.check(ok, "frf_data_recovery: min column is minus the max of |resp| at the same abscissa", fr)
 
@@ -172,17 +172,17 @@ def r2_mirror(ctx):
     b = ctx.src.func(UTIL, "nan_argmin")
     ra = [n for n in ast.walk(a) if isinstance(n, ast.Return)][0].value
     rb = [n for n in ast.walk(b) if isinstance(n, ast.Return)][0].value
-    ta = ast.unparse(ra).replace(" ", "")
-    tb = ast.unparse(rb).replace(" ", "")
+    ta = utext(ra)
+    tb = utext(rb)
     ok = ta == "(v2>v1)|np.isnan(v1)&~np.isnan(v2)" and tb == ta.replace(">", "<")
     ctx.check(ok, "nan_argmax / nan_argmin: (v2 > v1) | (isnan(v1) & ~isnan(v2)) and its `<` mirror (a NaN is replaced by any number, never the reverse)",
               a, {"max": ta, "min": tb})
     na = ctx.src.func(UTIL, "nan_absmax")
-    txt = ast.unparse(na).replace(" ", "")
+    txt = utext(na)
     ok = "amx=v1.copy()" in txt and "pv=nan_argmax(abs(v1),abs(v2))" in txt and "amx[pv]=v2[pv]" in txt
     ctx.check(ok, "nan_absmax: copies v1, replaces where |v2| > |v1| keeping the sign", na)
     mm = ctx.src.func(UTIL, "maxmin")
-    txt = ast.unparse(mm).replace(" ", "")
+    txt = utext(mm)
     ok = "jx=np.nanargmax(response,axis=1)" in txt and "jn=np.nanargmin(response,axis=1)" in txt \
         and "mx=response[ind,jx]" in txt and "mn=response[ind,jn]" in txt \
         and "ext=np.column_stack((mx,mn))" in txt and "ext_x=np.column_stack((x[jx],x[jn]))" in txt
@@ -282,7 +282,7 @@ def r6_exits_and_typing(ctx):
             if isinstance(b, list) and r in b:
                 blk = b
         prev = blk[blk.index(r) - 1] if blk and blk.index(r) > 0 else None
-        ok = prev is not None and ast.unparse(prev).replace(" ", "") in ("solout.d=solout.d_static+solout.d_dynamic",
+        ok = prev is not None and utext(prev) in ("solout.d=solout.d_static+solout.d_dynamic",
                                                                        "solout.d=solout.d_dynamic+solout.d_static")
         ctx.check(ok, "apply_uf: `return solout` is immediately preceded by d = d_static + d_dynamic", r)
     ctx.check(n == 3, "apply_uf: three exits", fn, nontrivial=False)
@@ -330,7 +330,7 @@ def r6_exits_and_typing(ctx):
                     ctx.check(ok, f"_pre_calcs: `{d}` is stored with the space apply_uf assumes", st, {"stored": repr(v), "assumed": repr(w)})
     # the definitions of elastic / elastic_norb / rf_norb themselves
     f2 = ctx.src.func(EVT, "_pre_calcs")
-    txt = ast.unparse(f2).replace(" ", "")
+    txt = utext(f2)
     ok = "elastic=flippv(rfmodes,n)[nrb:]" in txt and "elastic_norb=index2slice(elastic-nrb)" in txt and "rf_norb=rfmodes-nrb" in txt \
         and "elastic=slice(nrb,None)" in txt and "elastic_norb=slice(n-nrb)" in txt
     ctx.check(ok, "_pre_calcs: elastic = non-rb non-rf positions (full set); elastic_norb = elastic - nrb; rf_norb = rfmodes - nrb", f2)
@@ -402,7 +402,7 @@ def r4_cache_purity(ctx):
     av = [s for s in body if isinstance(s, ast.Assign) and ast.unparse(s.targets[0]) == "avterm"]
     kadd = [s for s in ast.walk(pc) if isinstance(s, ast.AugAssign) and "sol.d" in ast.unparse(s.value)]
     guard = [s for s in body if isinstance(s, ast.If) and "avterm.base" in ast.unparse(s.test)
-             and any("avterm=avterm.copy()" in ast.unparse(x).replace(" ", "") for x in s.body)]
+             and any("avterm=avterm.copy()" in utext(x) for x in s.body)]
     ok = bool(av) and bool(kadd) and all(av[0].lineno < k_.lineno for k_ in kadd) and \
         (bool(guard) and av[0].lineno < guard[0].lineno < min(k_.lineno for k_ in kadd) or ".copy()" in ast.unparse(av[0].value))
     ctx.check(ok, "_pre_calcs: avterm is copied (not a view of genforce) before the stiffness term is accumulated into genforce", av[0] if av else pc)
@@ -418,7 +418,7 @@ def r5_documented_factors(ctx):
     A, V, PG, GF, AV, K = (F.sym(x) for x in ("A", "V", "PG", "GF", "AV", "K"))
     for kdim in (1, 2):
         def cond(test, ev, kdim=kdim):
-            t = ast.unparse(test).replace(" ", "").replace("'", '"')
+            t = utext(test).replace("'", '"')
             if t == "nrb>0":
                 return True
             if t == "nrb==k.shape[0]":
@@ -436,7 +436,7 @@ def r5_documented_factors(ctx):
             return None
 
         def sub(node, ev):
-            t = ast.unparse(node).replace(" ", "").replace("'", '"')
+            t = utext(node).replace("'", '"')
             if t == 'save["genforce"]':
                 return GF
             if t == 'save["avterm"]':
@@ -507,7 +507,7 @@ def r5_documented_factors(ctx):
         for bd in (1, 2):
             for kd in (1, 2):
                 def cond(test, ev, md=md, bd=bd, kd=kd):
-                    t = ast.unparse(test).replace(" ", "")
+                    t = utext(test)
                     return {"misNone": md == "none", "m.ndim==1": md == 1, "b.ndim==1": bd == 1, "k.ndim==1": kd == 1,
                             "rfmodesisnotNone": False, "isinstance(elastic,slice)": True, "avterm.baseisnotNone": False}.get(t)
 
@@ -532,12 +532,12 @@ def r5_documented_factors(ctx):
                           None if ok else {"genforce": repr(gf), "avterm": repr(av)})
     # frf_apply_uf: documented factors
     ff = ctx.src.func(EVT, "DR_Event.frf_apply_uf")
-    txt = ast.unparse(ff).replace(" ", "")
+    txt = utext(ff)
     ok = all(f"SOL.{x}[:nrb]*=ruf*suf" in txt and f"SOL.{x}[nrb:]*=euf*duf" in txt for x in "avd") and "SOL.pg*=suf" in txt \
         and "ruf,euf,duf,suf=item" in txt and "solout[item]=copy.deepcopy(sol)" in txt
     ctx.check(ok, "frf_apply_uf: a, v, d rb part *= ruf*suf, elastic part *= euf*duf, pg *= suf, on a deep copy", ff)
     au = ctx.src.func(EVT, "apply_uf")
-    ok = "ruf,euf,duf,suf=uf_reds" in ast.unparse(au).replace(" ", "")
+    ok = "ruf,euf,duf,suf=uf_reds" in utext(au)
     ctx.check(ok, "apply_uf: factor tuple order is (rigid, elastic, dynamic, static)", au)
 
 
